@@ -6,7 +6,7 @@ using namespace datasketches;
 namespace vf {
 const char* property_id() { return "C19"; }
 unsigned case_timeout_s() { return 120; }
-uint64_t num_cases(bool thorough) { return thorough ? 8000 : 400; }
+uint64_t num_cases(bool thorough) { return 2 * (thorough ? 3000 : 160); }
 void final_report() {}
 
 template<typename T> struct ReqMaker {
